@@ -79,6 +79,10 @@ type mcReader struct {
 	cancel    func()
 	noYield   bool
 	cancelled bool
+	// blockAt > 0: after blockAt bytes the producer goes quiet: Read blocks until release is closed (a pipe or a
+	// terminal whose writer is still there); then it reports the end of input
+	blockAt int
+	release *mc.Chan[struct{}]
 }
 
 func newReader(doc string) *mcReader { return &mcReader{data: doc, failAfter: -1, cancelAt: -1} }
@@ -91,12 +95,19 @@ func (r *mcReader) Read(p []byte) (int, error) {
 		r.cancelled = true
 		r.cancel()
 	}
+	if r.blockAt > 0 && r.pos >= r.blockAt {
+		r.release.Recv()
+		return 0, errEOF
+	}
 	limit := len(r.data)
 	if r.failAfter >= 0 && r.failAfter < limit {
 		limit = r.failAfter
 	}
+	if r.blockAt > 0 && r.blockAt < limit {
+		limit = r.blockAt
+	}
 	if r.pos >= limit {
-		if r.failAfter >= 0 {
+		if r.failAfter >= 0 && !(r.blockAt > 0) {
 			if r.err != nil {
 				return 0, r.err
 			}
